@@ -5,6 +5,7 @@ from rules_reader import unmut, is_call_to
 from rules_dir import SPEC, ENTRY
 
 BUDGET = SPEC["root_budget"]["max_root_directory_bytes"]
+from absint import is_streamlike_ty as absint_is_streamlike
 
 
 def dir_write_fn(fn):
@@ -19,7 +20,8 @@ def spill_fns(ctx):
         if "Vec<u8>" not in f["ret"] and "Vec<u8>" not in str(f["ret"]):
             continue
         cs = [c["fn"] for c in calls(f["body"])]
-        if any(dir_write_fn(c) for c in cs) and any(c in ("std::io::Seek::stream_position", "futures_util::io::AsyncSeekExt::stream_position", "std::io::Seek::seek", "futures_util::io::AsyncSeekExt::seek") for c in cs):
+        has_stream_param = any(absint_is_streamlike(p.get("ty") or "") for p in f["params"])
+        if has_stream_param and any(dir_write_fn(c) for c in cs) and any(c in ("std::io::Seek::stream_position", "futures_util::io::AsyncSeekExt::stream_position", "std::io::Seek::seek", "futures_util::io::AsyncSeekExt::seek") for c in cs):
             out.append(f)
     return out
 
@@ -194,7 +196,7 @@ def r_reseek(ctx):
 
 def r_leafptr(ctx):
     obs = []
-    fs = [f for f in spill_fns(ctx) if any(c["fn"].endswith("::chunks") for c in calls(f["body"]))]
+    fs = [f for f in spill_fns(ctx) if any(e.kind == "call" and e.d["fn"].endswith("::chunks") for p in ctx.fa(f).paths for e in p.events)]
     if not fs:
         return no_anchor("R-LEAFPTR", "leaf-pointer strategy (root writer that chunks the entries)")
     for f in fs:
